@@ -27,6 +27,8 @@ pub struct Convert {
     pub out_long: bool, // --output instead of -o
     /// position of the positional argument among the option groups (clamped)
     pub positional_at: usize,
+    /// appended verbatim: unknown flags, surplus positionals (usage errors)
+    pub extra_args: Vec<String>,
 }
 
 #[derive(Clone, Debug, PartialEq)]
@@ -115,6 +117,7 @@ impl RunSpec {
                         }
                     }
                 }
+                a.extend(c.extra_args.iter().cloned());
             }
         }
         a
@@ -145,7 +148,7 @@ impl RunSpec {
                     .iter()
                     .map(|o| json!({"name":o.name,"value":o.value,"eq":o.eq_syntax}))
                     .collect();
-                json!({"kind":"convert","input":input,"opts":opts,"out":c.out,"out_long":c.out_long,"positional_at":c.positional_at})
+                json!({"kind":"convert","input":input,"opts":opts,"out":c.out,"out_long":c.out_long,"positional_at":c.positional_at,"extra_args":c.extra_args})
             }
         };
         let files: Vec<Value> = self
@@ -197,6 +200,7 @@ impl RunSpec {
                     out: m.get("out").and_then(s),
                     out_long: m.get("out_long").and_then(|b| b.as_bool()).unwrap_or(false),
                     positional_at: m.get("positional_at").and_then(|b| b.as_u64()).unwrap_or(0) as usize,
+                    extra_args: m.get("extra_args").and_then(|a| a.as_array()).map(|a| a.iter().filter_map(s).collect()).unwrap_or_default(),
                 })
             }
             _ => return Err("bad mode kind".into()),
